@@ -190,3 +190,16 @@ pub proof fn lemma_overwrite(s: Asg, gv: Seq<Variable>, g: Asg)
     }
 }
 
+
+pub proof fn lemma_contains_bound(xs: Seq<Variable>, v: Variable)
+    ensures xs.contains(v) == bound_by(xs, vkey(v)),
+{
+    if xs.contains(v) {
+        let i = choose|i: int| 0 <= i < xs.len() && xs[i] == v;
+        assert(vkey(xs[i]) == vkey(v));
+    }
+    if bound_by(xs, vkey(v)) {
+        let i = choose|i: int| 0 <= i < xs.len() && #[trigger] vkey(xs[i]) == vkey(v);
+        assert(xs[i] == v);
+    }
+}
